@@ -172,61 +172,87 @@ def check(ctx):
     ctx.ob("R11-c", C["__aenter__"], "__aenter__ acquires", len(s) == 1, detail="" if s else "Condition.__aenter__ does not await acquire()", by=("await self.acquire()",))
 
     # ---- R11-d notify
-    nf = C["notify"]
-    npar = nf.node.args.args[1].arg
-    loops = [n for n in own_walk(nf.node) if isinstance(n, ast.For)]
-    ok = len(loops) == 1 and ast.unparse(loops[0].iter) == f"range({npar})"
-    ctx.ob("R11-d", nf, "notify(n) makes at most n attempts", ok, detail="" if ok else "the notify loop is not `for _ in range(n)`", by=(f"range({npar})",))
-    deq = ctx.sites(nf, "$E = self._waiters.popleft()")
-    if ctx.need("R11-d", nf, "`event = self._waiters.popleft()`", len(deq), 1) and loops:
-        ev = u(deq[0][1]["E"])
-        ids = {id(loops[0])}
+    # a wake is `e = self._waiters.popleft() ... e.set()` or, in one expression, `self._waiters.popleft().set()`
+    def wakes(f, loop_ids, head_kinds, instance, empty_at_return=False):
+        deq = ctx.sites(f, "$E = self._waiters.popleft()")
+        both = ctx.sites(f, "self._waiters.popleft().set()")
+        evs = sorted({u(e["E"]) for _, e in deq})
 
         def step_n(st, e, c):
+            # st: None (nothing pending in this iteration) | "deq" (dequeued, not yet woken) | "woken"
             if e == "iter":
                 if st == "deq":
                     return Bad("a dequeued waiter is not woken (its notification is lost)")
                 return None
             if c.is_exc:
                 return st
-            if e == "deq":
-                return "deq"
+            if e in ("deq", "both"):
+                if st == "deq":
+                    return Bad("a dequeued waiter is not woken (its notification is lost)")
+                if st == "woken":
+                    return Bad("more than one waiter is dequeued per attempt")
+                return "deq" if e == "deq" else "woken"
             if e == "set":
                 if st != "deq":
                     return Bad("an event is set that was not dequeued in this iteration")
-                return None
+                return "woken"
             return st
 
         def at_exit_n(kind, st, facts):
             if st == "deq":
-                return "notify leaves with a dequeued waiter that was never woken"
+                return "leaves with a dequeued waiter that was never woken"
+            if empty_at_return and kind == "return" and ("self._waiters", False) not in facts:
+                return "notify_all can return with waiters still queued (not every listener is notified)"
             return None
 
-        ctx.paths("R11-d", nf, [("iter", [lambda frag, node: node.kind == "for_iter" and id(node.node) in ids]),
-                                ("deq", f"{ev} = self._waiters.popleft()"), ("set", f"{ev}.set()")], step_n, None, at_exit_n,
-                  instance="each dequeued waiter is woken, one per iteration")
-        inloop = all(any(x is s for x in ast.walk(loops[0])) for s, _ in deq)
+        spec = [("iter", [lambda frag, node: node.kind in head_kinds and id(node.node) in loop_ids]),
+                ("deq", [f"{ev} = self._waiters.popleft()" for ev in evs] or ["$E__none = self._waiters.popleft()"]),
+                ("set", [f"{ev}.set()" for ev in evs] or ["$E__none.__never__()"]), ("both", "self._waiters.popleft().set()")]
+        ctx.paths("R11-d", f, spec, step_n, None, at_exit_n, instance=instance)
+        return deq, both
+
+    nf = C["notify"]
+    npar = nf.node.args.args[1].arg
+    loops = [n for n in own_walk(nf.node) if isinstance(n, ast.For)]
+    ok = len(loops) == 1 and ast.unparse(loops[0].iter) == f"range({npar})"
+    ctx.ob("R11-d", nf, "notify(n) makes at most n attempts", ok, detail="" if ok else "the notify loop is not `for _ in range(n)`", by=(f"range({npar})",))
+    deq, both = wakes(nf, {id(l) for l in loops}, ("for_iter",), "each dequeued waiter is woken, one per iteration") if loops else ([], [])
+    sites_ = [s_ for s_, _ in deq] + [s_ for s_, _ in both]
+    if ctx.need("R11-d", nf, "dequeue `self._waiters.popleft()` in notify", len(sites_), 1) and loops:
+        inloop = all(any(x is s_ for x in ast.walk(loops[0])) for s_ in sites_)
         ctx.ob("R11-d", nf, "dequeue happens inside the bounded loop", inloop, by=("in loop",), detail="" if inloop else "popleft outside the range(n) loop")
-        hs = [h for h in own_walk(nf.node) if isinstance(h, ast.ExceptHandler) and h.type is not None and ast.unparse(h.type) == "IndexError"]
-        okb = bool(hs) and any(isinstance(b, ast.Break) for b in hs[0].body)
-        ctx.ob("R11-d", nf, "notify stops when no waiter is left", okb, detail="" if okb else "an empty queue does not end notify()", by=("except IndexError: break",))
+        hs = [h for h in own_walk(nf.node) if isinstance(h, ast.ExceptHandler) and h.type is not None and ast.unparse(h.type) in ("IndexError", "LookupError")]
+        if hs:
+            okb = any(isinstance(b, (ast.Break, ast.Return)) for b in hs[0].body)
+            ctx.ob("R11-d", nf, "notify stops when no waiter is left", okb, detail="" if okb else "an empty queue does not end notify()", by=("except IndexError: break",))
+        else:
+            for s_ in sites_:
+                ctx.require_at("R11-d", nf, s_, [["self._waiters"]], instance="notify stops when no waiter is left (dequeue only from a non-empty queue)",
+                               what="popleft")
     na = C["notify_all"]
     loops = [n for n in own_walk(na.node) if isinstance(n, ast.For) and ast.unparse(n.iter) in ("self._waiters", "list(self._waiters)", "tuple(self._waiters)")
              and isinstance(n.target, ast.Name) and any(P(f"{n.target.id}.set()").match(b) is not None for b in n.body)]
-    ctx.ob("R11-d", na, "notify_all sets every queued event", len(loops) == 1, detail="" if loops else "no loop setting every event of self._waiters",
-           by=("for event in self._waiters: event.set()",))
+    drains = [n for n in own_walk(na.node) if isinstance(n, ast.While)]
+    if loops or not drains:
+        ctx.ob("R11-d", na, "notify_all sets every queued event", len(loops) == 1, detail="" if loops else "no loop setting every event of self._waiters",
+               by=("for event in self._waiters: event.set()",))
 
-    def step_a(st, e, c):
-        if c.is_exc:
-            return st
-        if e == "clear" and "loop" not in st:
-            return Bad("the waiter queue is cleared before its events were set")
-        return st | {e}
+        def step_a(st, e, c):
+            if c.is_exc:
+                return st
+            if e == "clear" and "loop" not in st:
+                return Bad("the waiter queue is cleared before its events were set")
+            return st | {e}
 
-    ids2 = {id(l) for l in loops}
-    ctx.paths("R11-d", na, [("loop", [lambda frag, node: node.kind == "for_iter" and id(node.node) in ids2]), ("clear", "self._waiters.clear()")],
-              step_a, frozenset(), lambda k, st, f: ("notify_all leaves woken waiters in the queue" if k == "return" and "clear" not in st else None),
-              instance="set all, then clear")
+        ids2 = {id(l) for l in loops}
+        ctx.paths("R11-d", na, [("loop", [lambda frag, node: node.kind == "for_iter" and id(node.node) in ids2]), ("clear", "self._waiters.clear()")],
+                  step_a, frozenset(), lambda k, st, f: ("notify_all leaves woken waiters in the queue" if k == "return" and "clear" not in st else None),
+                  instance="set all, then clear")
+    else:
+        # draining form: `while self._waiters: self._waiters.popleft().set()` - every dequeued waiter is woken, and the only way out is an empty queue
+        deq, both = wakes(na, {id(l) for l in drains}, ("loop_head",), "notify_all drains the queue, waking every dequeued waiter", empty_at_return=True)
+        ctx.ob("R11-d", na, "notify_all sets every queued event", bool(deq or both), detail="" if (deq or both) else "no loop waking the queued waiters",
+               by=("while self._waiters: popleft().set()",))
     queue_ends(ctx, "R11-d", "Condition", "_waiters", SYNC)
 
     # ---- R11-e wait protocol
